@@ -8,6 +8,7 @@ import vlib
 import proc
 import world
 import worldscen as ws
+import cmdline
 import gen_rules
 import confshape
 import conffam
@@ -68,7 +69,27 @@ EDITS = [
     ('keyword-as-macro', lambda c: 'move = "x"\n' + c),
     ('missing-header-name', lambda c: c.replace('header "To" /user/', 'header /user/', 1)),
     ('flag-without-new', lambda c: c.replace('flag !new', 'flag !', 1)),
+    ('pattern-flags-u-and-l', lambda c: c.replace('/x(y)?/i', '/x(y)?/ul', 1)),
+    ('pattern-flags-i-l-u', lambda c: c.replace('/x(y)?/i', '/x(y)?/ilu', 1)),
 ]
+
+# Pattern flags: every string of at most three letters of i, l, u (repetitions included) and letters that are not flags.  mdsort.conf(5):
+# i ignores case, l / u lower- / uppercase the captured text and "cannot be combined" - a pattern carrying both, in either order, with
+# or without i, is an error; any combination without that pair is valid, a letter repeated included.  A letter that is not a flag is
+# not part of the pattern: it starts the next word, which is no keyword here.
+PFLAGS = [''.join(p) for n in range(4) for p in __import__('itertools').product('ilu', repeat=n)]
+PFLAGS_UNKNOWN = ['x', 'g', 'I', 'L', 'U', 'ix', 'lx', 'm', 's', '1']
+
+
+def pattern_flag_cases():
+    out = []
+    for f in PFLAGS + PFLAGS_UNKNOWN:
+        for where in ('body', 'header'):
+            old = '/x(y)?/i' if where == 'body' else '/user/'
+            conf = BASE.replace(old, old[:old.rindex('/') + 1] + f, 1)
+            bad = ('l' in f and 'u' in f) or f in PFLAGS_UNKNOWN
+            out.append(('pattern-flags-%s-%s' % (where, f or 'none'), conf, 'reject' if bad else 'accept'))
+    return out
 
 
 
@@ -204,6 +225,8 @@ CORNERS = [
     ('maildir "a" { match all break } 12', HOME, []),
     ('maildir "a" { match 12 break }', HOME, []),
 ]
+CORNERS += [('maildir "q" { match body /a(b)/%s and header "X" /c/%s label "\\1" }' % (f, g), HOME, [])
+            for f in PFLAGS + PFLAGS_UNKNOWN for g in ('', 'u', 'li')]
 
 VOCAB = ['maildir', 'stdin', 'match', 'all', 'new', 'old', 'and', 'or', '!', '(', ')', '{', '}', 'attachment', 'body', 'header',
          'date', 'isdirectory', 'command', 'move', 'flag', 'flags', 'label', 'discard', 'break', 'pass', 'reject', 'exec', 'add-header',
@@ -583,6 +606,7 @@ def run(rep):
     n = 300 if rep.tier == 'quick' else 20000
     base = BASE.replace('@HELPER@', '/bin/true')
     texts = [base] + [e(base) for _, e in EDITS if e(base) is not None]
+    texts += [c.replace('@HELPER@', '/bin/true') for _, c, _ in pattern_flag_cases()]
     texts += [c for c in grammar_configs(rng, n)]
     for _ in range(n):
         t = bytearray(rng.choice(texts[:60]).encode('latin-1'))
@@ -731,6 +755,17 @@ def run(rep):
                              'maildir differences %d / %d, commands run %d / %d' % (name, st2, st3, len(changed2), len(changed3), len(helper2), len(helper3)))
         return {'kind': 'accept:' + name, 'config': conf[:1500], 'problems': probs, 'cls': cls, 'expected': exp, 'verdict': 'accepted' if not probs else 'NOT accepted'}
 
+    def flagcase(item):
+        name, conf, exp = item
+        if exp == 'reject':
+            r = reject((name, conf))
+            return dict(r, kind='reject:' + name)
+        st, err, changed, helper, opened = run_conf(tools, conf.replace('@HELPER@', tools.helper), args=['-n'])
+        probs = []
+        if st != 0 or err.strip():
+            probs.append('%s: a valid combination of pattern flags is not accepted by -n: exit status %r, stderr %r' % (name, st, err[-200:]))
+        return {'kind': 'accept:' + name, 'config': conf[:1500], 'problems': probs}
+
     def total(text):
         st, err, changed, helper, opened = run_conf(tools, text, args=['-n'], timeout=10)
         probs = []
@@ -760,6 +795,19 @@ def run(rep):
     for r in results:
         if r['problems']:
             rep.finding(r.get('cls', 'unlisted'), {'kind': r['kind'], 'config': r['config'], 'what': r['problems'][:4]})
+    # 2b. pattern flags (package ce13): every combination of i, l, u and letters that are no flags, on the real binary
+    fcases = pattern_flag_cases()
+    with cf.ThreadPoolExecutor(vlib.NCPU) as ex:
+        fres = list(ex.map(flagcase, fcases))
+    for r in fres:
+        if r['problems']:
+            rep.finding('unlisted', {'kind': r['kind'], 'config': r['config'], 'what': r['problems'][:4]})
+    rep.coverage['pattern_flag_family'] = {
+        'cases': len(fcases), 'expected_rejected': len([c for c in fcases if c[2] == 'reject']), 'deviations': [r['kind'] for r in fres if r['problems']],
+        'rule': 'every string of <= 3 letters of i, l, u and 10 letters that are no flags after a body and after a header pattern of the reference '
+                'configuration: l together with u (any order, with i, repeated) and unknown letters are rejected as a whole (exit 1 / 75, file:line '
+                'diagnostic, nothing opened or changed), everything else is accepted silently by -n; the same strings go through the lexer and '
+                'parser correspondence'}
     # 3. the run from the configuration text: the same real run followed with the real parser's trees and with the parser model's
     W = world.WorldCheck(sc, tools)
     titems = text_specs()
@@ -778,6 +826,7 @@ def run(rep):
         rep.violation({'obligation': 'correspondence yylex (parse.y) <-> Model/Lex.lean, token by token under the real parser', 'disagreements': len(corr_bad),
                        'examples': corr_bad[:6]}, False)
     dconf.conclude('config_parse (parse.y, bison) <-> Model/Conf.lean parseConfig: accept/reject, first diagnostic line, trees, yylex calls')
+    rep.coverage['command_line'] = cmdline.stage(rep, sc, tools, W)      # argument vectors and environments: refused => exit 1 and no call (tools/cmdline.py)
     vlib.lean_conclude(rep)
     rep.coverage.update({
         'evaluations': len(texts) + len(results),
